@@ -341,6 +341,13 @@ pub fn var_change_optimizer_cons_eval(
                 );
             };
 
+            // ((X) . operands) passes its operands unevaluated: leave it alone.
+            if let SExp::Pair(call_head, _) = allocator.sexp(*original_call) {
+                if let SExp::Pair(_, _) = allocator.sexp(call_head) {
+                    return Ok(r);
+                }
+            }
+
             let new_eval_sexp_args = sub_args(allocator, *original_call, *original_args)?;
 
             if DIAG_OPTIMIZATIONS {
